@@ -189,6 +189,7 @@ pub fn tree_walker(
 
         for entry in WalkDir::new(&source)
             .follow_root_links(config.dereference)
+            .follow_links(config.dereference)
             .into_iter()
             .filter_entry(|e| ignore_filter(e, &gitignore))
         {
